@@ -19,7 +19,7 @@ RULE = ("one evaluation = one seeded history (<= 60 operations on a dataset of <
         "even-odd polygon test), and at the end with a freshly built dataset given the same final settings. "
         "non-trivial = >=1 setting change and >=1 comparison; distinct = distinct event-log digests")
 STATE_MEASURE = "distinct (active ranges, #polygons, invalid flag, enabled flag, limit>0, manual-any, previous operation kind) tuples"
-PROBES = ["range_removed_after_apply", "range_reversed", "range_min_eq_max", "bound_tied_with_data", "nan_in_range_feature",
+PROBES = ["half_specified_range", "apply_failed_on_half_range", "range_removed_after_apply", "range_reversed", "range_min_eq_max", "bound_tied_with_data", "nan_in_range_feature",
           "polygon_modified_in_place", "polygon_inverted", "polygon_removed", "limit_binding", "limit_not_binding",
           "disabled", "reset_with_state", "manual_edit", "force_apply", "file_backed", "apply_twice_same"]
 COMPONENTS = {"real": ["dclab Filter.update / RTDCBase.apply_filter / Configuration", "dclab PolygonFilter + compiled points_in_poly",
@@ -122,8 +122,23 @@ class World:
 
     # ---------------- generation ----------------
     def gen_op(self, r):
-        x = r.random()
         cfg = self.ds.config["filtering"]
+        half = [f for f in FEATS if (f + " min" in cfg) != (f + " max" in cfg)]
+        if half:
+            # a range of which only one bound was entered so far: applying now fails; the user completes it afterwards
+            y = r.random()
+            if y < 0.5:
+                return {"k": "apply", "force": []}
+            if y < 0.9:
+                v = self.data[half[0]]
+                fin = v[np.isfinite(v)]
+                return {"k": "complete_range", "feat": half[0], "val": float(fin[r.randrange(fin.size)]) if fin.size else 0.5}
+        x = r.random()
+        if x < 0.04:
+            f = r.choice(FEATS)
+            v = self.data[f]
+            fin = v[np.isfinite(v)]
+            return {"k": "half_range", "feat": f, "which": r.choice(["min", "max"]), "val": float(fin[r.randrange(fin.size)]) if fin.size else 0.5}
         if x < 0.22:
             f = r.choice(FEATS)
             v = self.data[f]
@@ -185,8 +200,31 @@ class World:
             if np.isnan(v).any():
                 ctx.probe("nan_in_range_feature")
             ctx.log("a", f"set_range {f}", seeds.short_hash([op["lo"], op["hi"]]))
+        elif k == "half_range":
+            f = op["feat"]
+            if f + " min" in cfg or f + " max" in cfg:
+                return
+            cfg[f + " " + op["which"]] = op["val"]
+            ctx.probe("half_specified_range")
+            ctx.log("a", f"half_range {f} {op['which']}", seeds.short_hash(op["val"]))
+        elif k == "complete_range":
+            f = op["feat"]
+            if (f + " min" in cfg) == (f + " max" in cfg):
+                return
+            other = "max" if f + " min" in cfg else "min"
+            cfg[f + " " + other] = op["val"]
+            ctx.log("a", f"complete_range {f}", seeds.short_hash(op["val"]))
         elif k == "rm_range":
             f = op["feat"]
+            if (f + " min" in cfg) != (f + " max" in cfg):
+                # (drop the half-entered bound)
+                cfg.pop(f + " min", None)
+                cfg.pop(f + " max", None)
+                ctx.log("a", f"rm_range {f} (half)")
+                ctx.state_ops += 1
+                self.prev = k
+                self.dirty = True
+                return
             if f + " min" not in cfg:
                 return
             cfg.pop(f + " min")
@@ -306,10 +344,19 @@ class World:
     def apply_and_check(self, force):
         ctx = self.ctx
         ds = self.ds
+        cfg0 = ds.config["filtering"]
+        half = [f for f in FEATS if (f + " min" in cfg0) != (f + " max" in cfg0)]
         with warnings.catch_warnings():
             warnings.simplefilter("ignore")
-            with ctx.sut("C03.apply"):
+            with ctx.sut("C03.apply", allow=(ValueError,) if half else None) as s_:
                 ds.apply_filter(force=force)
+        if half:
+            # settings that cannot be applied: nothing to compare with (whether it raised or not); what follows must
+            # again equal the specification
+            ctx.probe("apply_failed_on_half_range" if s_.exc is not None else "apply_tolerated_half_range")
+            ctx.log("c", "apply half-specified", "raised" if s_.exc is not None else "ok")
+            self.dirty = True
+            return
         if force:
             ctx.probe("force_apply")
         if not self.dirty and self.applied_once:
